@@ -35,7 +35,7 @@ func ZZLockedConcurrent() {
 		err error
 	}
 	mk := func(p string, oc orcas.OrcaConst) *conn {
-		x := &conn{c: newCommand(p, nk, 1, 1), rec: &model.Rec{}}
+		x := &conn{c: newCommand(p, nk, 1, rt.Param("getkeys", 1)), rec: &model.Rec{}}
 		// per-connection handler objects over the shared stores
 		x.o = oc(model.NewHandler(w.m1, w.now), model.NewHandler(w.m2, w.now), x.rec)
 		return x
@@ -99,20 +99,73 @@ func ZZLockedConcurrent() {
 	rt.Reach("both-done")
 	rt.Assert("c03-no-fatal-error", (a.err == nil || common.IsAppError(a.err)) && (b.err == nil || common.IsAppError(b.err)))
 
-	order := func(first, second *conn) bool {
+	// Linearization: every single-key command is one atomic step; a get of n keys is n atomic
+	// reads in key order (the property is per key: the wrapper locks one key at a time). Both
+	// reply logs and the final L2 state must be explained by one merge of the two step lists.
+	steps := func(x *conn) int {
+		if x.c.kind == cmdGet {
+			return len(x.c.keys)
+		}
+		return 1
+	}
+	na, nb := steps(a), steps(b)
+	var merges [][]bool // true = next step of a
+	var gen func(pa, pb int, cur []bool)
+	gen = func(pa, pb int, cur []bool) {
+		if pa == na && pb == nb {
+			merges = append(merges, append([]bool(nil), cur...))
+			return
+		}
+		if pa < na {
+			gen(pa+1, pb, append(cur, true))
+		}
+		if pb < nb {
+			gen(pa, pb+1, append(cur, false))
+		}
+	}
+	gen(0, 0, nil)
+	explain := func(merge []bool) bool {
 		ref := w.ref.Clone("order")
 		ok := true
-		for _, x := range []*conn{first, second} {
+		pos := map[*conn]int{}
+		for _, x := range []*conn{a, b} {
+			x.c.refAt = nil
+			if x.c.kind == cmdGet {
+				x.c.refAt = make([]*model.Store, len(x.c.keys))
+			}
+		}
+		for _, isA := range merge {
+			x := b
+			if isA {
+				x = a
+			}
+			if x.c.kind == cmdGet {
+				x.c.refAt[pos[x]] = ref.Clone("read")
+				pos[x]++
+				continue
+			}
 			x.c.collect = &ok
 			x.c.expect(ref, w.now, x.rec.Log, "c03")
 			x.c.collect = nil
+		}
+		for _, x := range []*conn{a, b} {
+			if x.c.kind == cmdGet {
+				x.c.collect = &ok
+				x.c.expect(ref, w.now, x.rec.Log, "c03")
+				x.c.collect = nil
+				x.c.refAt = nil
+			}
 		}
 		for i := 0; i < nk; i++ {
 			ok = rt.And(ok, model.EqEntry(&w.m2.E[i], &ref.E[i], true))
 		}
 		return ok
 	}
-	rt.Assert("c03-linearizable", rt.Or(order(a, b), order(b, a)))
+	lin := false
+	for _, m := range merges {
+		lin = rt.Or(lin, explain(m))
+	}
+	rt.Assert("c03-linearizable", lin)
 	for i := 0; i < nk; i++ {
 		e1, e2 := &w.m1.E[i], &w.m2.E[i]
 		same := false
@@ -133,6 +186,7 @@ func ZZLockWiring() {
 	conc := uint8(rt.Choice("concurrency", 3))
 	ocMain, slot := orcas.Locked(orcas.L1L2, multi, conc)
 	ocBatch := orcas.LockedWithExisting(orcas.L1L2Batch, slot)
+	lg := orcas.ZZInstrumentLocks(slot)
 	st := &model.Store{}
 	mko := func(oc orcas.OrcaConst) orcas.Orca {
 		return oc(model.NewHandler(st, 0), model.NewHandler(st, 0), &model.Rec{})
@@ -143,4 +197,26 @@ func ZZLockWiring() {
 	key := rt.Bytes("key", 1+rt.Choice("keylen", 3))
 	i1, i2, i3 := orcas.ZZLockIndex(m1, key), orcas.ZZLockIndex(m2, append([]byte(nil), key...)), orcas.ZZLockIndex(bt, key)
 	rt.Assert("c03-stripe-is-a-function-of-the-key", i1 == i2 && i1 == i3 && i1 >= 0 && i1 < 1<<conc)
+	// every key of a multi-key get (and gete) is locked on the stripe a single-key command on
+	// that key uses, whatever keys precede it in the request
+	ks := [][]byte{model.Keys[rt.Choice("k1", 3)], model.Keys[rt.Choice("k2", 3)], model.Keys[rt.Choice("k3", 3)]}
+	before := len(lg.Events)
+	req := common.GetRequest{Keys: [][]byte{ks[0], ks[1], ks[2]}, Opaques: []uint32{1, 2, 3}, Quiet: []bool{false, false, false}}
+	var target orcas.Orca = m1
+	if rt.Choice("port", 2) == 1 {
+		target = bt
+	}
+	target.Get(req)
+	var acquired []int
+	for _, e := range lg.Events[before:] {
+		if e.Acquire {
+			acquired = append(acquired, e.Idx)
+		}
+	}
+	rt.Assert("c03-multi-get-locks-once-per-key", len(acquired) == 3)
+	if len(acquired) == 3 {
+		for j := range ks {
+			rt.Assert("c03-multi-get-locks-each-key-on-its-own-stripe", acquired[j] == orcas.ZZLockIndex(m2, ks[j]))
+		}
+	}
 }
